@@ -198,6 +198,10 @@ def _rand_comment(lay: Layout, block: bool) -> str:
     """Random comment text: anything may appear in a comment except what ends it."""
     rng = lay.rng
     alphabet = _COMMENT_ALPHABET + ("\x0c\x0b\x1c\x85\u2028\u00e9\u30a2" if lay.k.get("exotic_comments") else "")
+    if rng.random() < 0.25:
+        # comments in any language: letters whose upper / lower case has another length (U+0130, U+00DF, U+0149), kana, an astral
+        # character, a no-break space, a byte order mark, a right-to-left mark
+        alphabet += "\u00e9\u00df\u0130\u0131\u01f0\u0149\u0390\u30a2\u3042\U0001F600\u00a0\ufeff\u200f\u1e9e" * 2
     n = rng.choice([0, 1, 2, 5, 12, 30])
     text = "".join(rng.choice(alphabet) for _ in range(n))
     if block:
